@@ -34,8 +34,15 @@
       held; caller-held locks are unknown to callees). It errs towards false alarms, EXCEPT: a base variable
       re-assigned between Lock and the access, a callee/closure releasing the caller's lock, Unlock through
       an alias of the mutex, and field contents (maps, slices, pointers) that escape into locals / structs
-      / return values and are used after Unlock (only local aliases of inner maps are followed) — these
-      can hide a race from the table.
+      / return values and are used after Unlock — these can hide a race from the table. Followed: local
+      aliases of inner maps, and local aliases of a tracked MAP field itself ([x := B.f], or [x := B.m()]
+      where method m returns [R.f] of its receiver). An access through such an alias is credited with a lock
+      of B only while that lock is still the SAME acquisition under which the alias was read from the field:
+      a table captured in one critical section and written under a later one (the field may have been
+      re-assigned in between, so the write can land in a detached map: time-of-check / time-of-use) appears
+      in the table WITHOUT the lock and breaks [C10_discipline]. Dropping a lock from an annotation is always
+      sound for [C10_lockset_sound] (fewer annotations = more behaviours of the machine); it is conservative
+      (a stale alias of a field that is never re-assigned is flagged too).
     - Accesses through reflection, unsafe, cgo, third-party code, or from packages other than
       internal/actor, internal/future, internal/remoting are not inventoried; composite-literal field
       initialisers (construction before the object is shared) are counted but not treated as accesses.
